@@ -41,9 +41,6 @@ MUTANTS = [
      "        self._found_extended_md = defaultdict(list)\n        try:", "        try:"),
     ("C07-no-defaults-at-start", "C07", P + "common/executor.py",
      "            self.define_default_types()\n", ""),
-    ("C07-inject-blocks-accumulate", "C07", P + "common/executor.py",
-     "        self._inject_blocks = [\n            md for md in cpp_functions if isinstance(md, InjectCodeBlock)\n        ]",
-     "        self._inject_blocks += [\n            md for md in cpp_functions if isinstance(md, InjectCodeBlock)\n        ]\n        if not hasattr(self, '_seen_once'):\n            self._seen_once = True"),
     # ---------------- C02 (scoped clause)
     ("C02-swallow-oserror", "C02", P + "common/executor.py",
      "        j2_env.get_template(template_file).stream(info).dump(\n            str(final_dir / template_file)\n        )",
@@ -54,7 +51,7 @@ MUTANTS = [
      "        (output_path / self._runner_name).chmod(0o755)\n", "        (output_path / self._runner_name).chmod(0o744)\n"),
     ("C02-skip-existing-file", "C02", P + "common/executor.py",
      "        \"Copy a file to a final directory\"\n",
-     "        \"Copy a file to a final directory\"\n        if (final_dir / template_file).exists() and template_file.endswith('.xml'):\n            return\n"),
+     "        \"Copy a file to a final directory\"\n        if (final_dir / template_file).exists() and template_file.endswith(('.cxx', '.cc')):\n            return\n"),
     # ---------------- C16
     ("C16-atlas-no-set-e", "C16", P + "template/atlas/r21/runner.sh", "\nset -e\n", "\n"),
     ("C16-cms5-no-set-e", "C16", P + "template/cms/r5/runner.sh", "\nset -e\n", "\n"),
